@@ -370,6 +370,18 @@ thread_local! {
     pub static LAST_PANIC: RefCell<Option<(String, String)>> = const { RefCell::new(None) };
 }
 
+/// CPU time consumed by the calling thread, in seconds. Used instead of wall-clock time
+/// wherever slowness is part of an oracle: it does not depend on how busy the machine is.
+pub fn thread_cpu_seconds() -> f64 {
+    let mut ts = libc::timespec { tv_sec: 0, tv_nsec: 0 };
+    // SAFETY: plain syscall wrapper writing into a local struct
+    let rc = unsafe { libc::clock_gettime(libc::CLOCK_THREAD_CPUTIME_ID, &mut ts) };
+    if rc != 0 {
+        return 0.0;
+    }
+    ts.tv_sec as f64 + ts.tv_nsec as f64 * 1e-9
+}
+
 pub fn install_panic_hook() {
     std::panic::set_hook(Box::new(|info| {
         let loc = info
@@ -505,7 +517,7 @@ where
             let mut st = stats.into_inner();
             match result {
                 Ok(()) => (st, None, None),
-                Err(TestError::Fail(_reason, shrunk)) => {
+                Err(TestError::Fail(reason, shrunk)) => {
                     // recompute the failure on the shrunk case
                     st.frozen = true;
                     let mut scratch = Stats {
@@ -516,7 +528,11 @@ where
                         Err(f) => f,
                         Ok(()) => Failure::new(
                             "flaky",
-                            "shrunk case did not fail when re-run (non-deterministic check?)",
+                            format!(
+                                "shrunk case did not fail when re-run (non-deterministic check?); first failure: {}; shrunk case: {}",
+                                reason.message().chars().take(400).collect::<String>(),
+                                to_json(&shrunk).to_string().chars().take(400).collect::<String>()
+                            ),
                         ),
                     };
                     let v = Violation {
@@ -618,6 +634,166 @@ pub fn sample_strategy<S: Strategy>(s: &S, seed: u64, n: usize) -> Vec<S::Value>
     (0..n)
         .map(|_| s.new_tree(&mut runner).expect("strategy").current())
         .collect()
+}
+
+// ------------------------------------------------------------------------------------------
+// coverage-guided campaigns (libFuzzer targets in /verif/fuzz), thorough tiers only
+// ------------------------------------------------------------------------------------------
+
+/// Builds the libFuzzer target from the current trees of /repo and /verif/harness, runs
+/// `SHARDS` independent jobs (`-runs`, `-seed` derived from VERIF_SEED, a fresh corpus seeded
+/// with `seeds`) and replays every artifact they leave through `replay` in this process, so
+/// that a failure is classified by the same oracle and signature as a proptest failure.
+/// libFuzzer campaigns are only approximately reproducible; the saved input is the
+/// reproducible unit. Anything that prevents the campaign (no nightly toolchain, build
+/// failure) or an artifact that does not reproduce in process is an infrastructure error.
+pub fn run_libfuzzer(
+    cfg: &Cfg,
+    target: &str,
+    runs_per_job: u64,
+    max_len: usize,
+    seeds: &[Vec<u8>],
+    dict: &[String],
+    replay: impl Fn(&[u8], &mut Stats) -> CheckResult,
+) -> RunOutput {
+    use std::process::{Command, Stdio};
+    let mut out = RunOutput {
+        stats: Stats::default(),
+        violations: vec![],
+        infra_errors: vec![],
+    };
+    let fuzz_dir = PathBuf::from(verif_dir()).join("fuzz");
+    let target_dir = fuzz_dir.join("target");
+    let build = Command::new("cargo")
+        .args(["+nightly", "fuzz", "build", "-s", "none", "--fuzz-dir"])
+        .arg(&fuzz_dir)
+        .arg("--target-dir")
+        .arg(&target_dir)
+        .arg(target)
+        .current_dir(&fuzz_dir)
+        .env("CARGO_NET_OFFLINE", "true")
+        .env_remove("CARGO_TARGET_DIR")
+        .env_remove("RUSTFLAGS")
+        .stdout(Stdio::null())
+        .stderr(Stdio::piped())
+        .output();
+    match build {
+        Ok(o) if o.status.success() => {}
+        Ok(o) => {
+            let err = String::from_utf8_lossy(&o.stderr);
+            let tail: String = err.lines().rev().take(12).collect::<Vec<_>>().into_iter().rev().collect::<Vec<_>>().join("\n");
+            out.infra_errors.push(format!("cargo fuzz build {target} failed:\n{tail}"));
+            return out;
+        }
+        Err(e) => {
+            out.infra_errors.push(format!("cannot run cargo fuzz: {e}"));
+            return out;
+        }
+    }
+    let bin = target_dir.join("x86_64-unknown-linux-gnu").join("release").join(target);
+    let work = fuzz_dir.join("work").join(format!("{target}-{}-seed{}", cfg.id, cfg.seed));
+    let _ = std::fs::remove_dir_all(&work);
+    let dict_path = work.join("dict.txt");
+    if std::fs::create_dir_all(&work).is_err() {
+        out.infra_errors.push(format!("cannot create {}", work.display()));
+        return out;
+    }
+    if !dict.is_empty() {
+        let mut text = String::new();
+        for d in dict {
+            let esc: String = d.bytes().map(|b| format!("\\x{b:02x}")).collect();
+            text.push_str(&format!("\"{esc}\"\n"));
+        }
+        let _ = std::fs::write(&dict_path, text);
+    }
+    let mut children = vec![];
+    for job in 0..SHARDS {
+        let corpus = work.join(format!("corpus{job}"));
+        let art = work.join(format!("art{job}"));
+        let _ = std::fs::create_dir_all(&corpus);
+        let _ = std::fs::create_dir_all(&art);
+        for (i, s) in seeds.iter().enumerate() {
+            let _ = std::fs::write(corpus.join(format!("seed{i:04}")), s);
+        }
+        // libFuzzer treats -seed=0 as "random": keep the value non-zero
+        let seed = (shard_seed(cfg.seed, &cfg.id, target, job) % 0xffff_fffe) + 1;
+        let log = std::fs::File::create(work.join(format!("log{job}.txt")));
+        let Ok(log) = log else { continue };
+        let mut c = Command::new(&bin);
+        c.arg(&corpus)
+            .arg(format!("-runs={runs_per_job}"))
+            .arg(format!("-seed={seed}"))
+            .arg(format!("-max_len={max_len}"))
+            .arg("-len_control=0")
+            .arg("-timeout=120")
+            .arg("-rss_limit_mb=6144")
+            .arg("-print_final_stats=1")
+            .arg(format!("-artifact_prefix={}/", art.display()))
+            .env("VERIF_ROOT", verif_dir())
+            .stdout(Stdio::null())
+            .stderr(Stdio::from(log));
+        if !dict.is_empty() {
+            c.arg(format!("-dict={}", dict_path.display()));
+        }
+        match c.spawn() {
+            Ok(ch) => children.push((job, ch)),
+            Err(e) => out.infra_errors.push(format!("cannot start {}: {e}", bin.display())),
+        }
+    }
+    let mut executed = 0u64;
+    let mut corpus_files = 0usize;
+    for (job, mut ch) in children {
+        let _ = ch.wait();
+        let log = std::fs::read_to_string(work.join(format!("log{job}.txt"))).unwrap_or_default();
+        for l in log.lines() {
+            if let Some(n) = l.strip_prefix("stat::number_of_executed_units:") {
+                executed += n.trim().parse::<u64>().unwrap_or(0);
+            }
+        }
+        corpus_files += std::fs::read_dir(work.join(format!("corpus{job}"))).map(|d| d.count()).unwrap_or(0);
+        let mut arts: Vec<PathBuf> = std::fs::read_dir(work.join(format!("art{job}")))
+            .map(|d| d.filter_map(|e| e.ok().map(|e| e.path())).collect())
+            .unwrap_or_default();
+        arts.sort();
+        for a in arts {
+            let name = a.file_name().and_then(|n| n.to_str()).unwrap_or("").to_string();
+            let Ok(bytes) = std::fs::read(&a) else { continue };
+            if name.starts_with("oom-") {
+                out.infra_errors.push(format!("libFuzzer reported memory exhaustion for {} (not replayed in process)", a.display()));
+                continue;
+            }
+            match catch(|| replay(&bytes, &mut out.stats)) {
+                Ok(Ok(())) => out
+                    .infra_errors
+                    .push(format!("libFuzzer artifact {} does not fail when replayed in process", a.display())),
+                Ok(Err(f)) => {
+                    if let Some(k) = known().matches(&cfg.id, &f.signature) {
+                        let e = out
+                            .stats
+                            .known_hits
+                            .entry(k.key.clone())
+                            .or_insert((0, json!({"fuzz_bytes": bytes, "text": String::from_utf8_lossy(&bytes)})));
+                        e.0 += 1;
+                    } else if !out.violations.iter().any(|v| v.failure.signature == f.signature) {
+                        out.violations.push(Violation {
+                            sub: format!("libfuzzer-{target}"),
+                            case: json!({"fuzz_bytes": bytes, "text": String::from_utf8_lossy(&bytes)}),
+                            failure: f,
+                        });
+                    }
+                }
+                Err((loc, msg)) => out.infra_errors.push(format!("replaying {} panicked in the harness at {loc}: {msg}", a.display())),
+            }
+        }
+    }
+    out.stats.label_n(&format!("libfuzzer:{target}:executions"), executed);
+    out.stats.label_n(&format!("libfuzzer:{target}:corpus-files-at-end"), corpus_files as u64);
+    out.stats.evaluations += executed;
+    // keep the disk clean: the corpora are reproducible from the seed inputs
+    if out.violations.is_empty() && out.infra_errors.is_empty() {
+        let _ = std::fs::remove_dir_all(&work);
+    }
+    out
 }
 
 // ------------------------------------------------------------------------------------------
